@@ -168,24 +168,24 @@ PENDING = {}
 # workload dimensions added while closing the seeded-change rounds (DESIGN.md 9.3), appended to the level text
 ADDED = {
     "C18": " Repeated options; 0 / 1 spellings of float-pair options. Rounds 12-16: -c settings used by a plotting run through the real entry point in a fresh interpreter (kind fresh_run); literal-looking and numeric-looking string values (known finding F14); stamp-less homes; parameters together with a merge file; obsolete keys; null values (kind null_values). Rounds 17-19: negative exponents, non-ASCII strings and non-finite float tokens (inf, infinity, 1e400) in generated configurations. Round 20: the -c configuration as a regular file, a symbolic link, the standard input or a named pipe.",
-    "C09": " Argument arrays in C / Fortran order, transposed views, strided windows and read-only buffers; arrays returned earlier are poisoned before the next call. Rounds 12-16: concurrent use of the helpers from 4 threads; constructor arguments as longdouble / lists / tuples; vectors with components 25 orders of magnitude apart. Rounds 17-19: logarithms near pi about generic axes; cross-product identity judged relative to |v||w|.",
-    "C05": " Numpy-scalar spellings of max_diff / offset; display names with '%' and braces; self-association of one object; CLI runs with cropping plus offset. Rounds 12-16: objects built by evo's own readers (paths, handles, StringIO) and by the pandas bridge; metadata with reference cycles; concurrent associations in 4 threads. Rounds 17-19: merge together with synchronisation through evo_traj; bounds exactly on a pair's time difference.",
-    "C01": " API sessions: one reference object associated and evaluated several times with different options (each evaluation judged against the generating arrays); CLI runs include plots with colour-map limits, zero-valued numeric options and near-identical estimates. Direct API evaluations on every container flavour (lists, integer containers, stacked / shared arrays, subclass instances); input files without a final line break and with '%' / brackets in their names; options moved into a -c configuration file. Rounds 12-16: crop bounds on reference stamps; sparse-reference / dense-estimate pairs; chained unit conversions; a reference object re-used for a second evaluation in another plane; TUM files stamped in integer nanoseconds; bounds a hair above / below a pair's time difference; concurrent APE evaluations in 4 threads compared with their serial outcomes. Rounds 17-19: motion-filter angle thresholds beyond a half turn; header comments in the inputs; sub-degree tilts before projection. Round 20: one-letter flags grouped into one token (-ap, -as, -va, ...); in-process runs go through evo's own launch().",
-    "C02": " Sizes beyond 1024 poses in the quick tier; the arguments reaching the pair selection are compared with the command line (incl. --delta_tol 0); only forward pairs are accepted. Exact-grid metre deltas; explicit all-pairs and unit selections forced through the command line. Rounds 12-16: refusals judged (a delta is refused only when the rule selects no pair); deltas between the raw and the scale-corrected path length; pair-end stamps reported by rpe() (kind pair_ends); concurrent RPE evaluations in 4 threads. Rounds 17-19: frame deltas above the number of poses; motion-filter angle thresholds beyond 180 degrees. Round 20: one-letter flags grouped into one token (-ap must stay -a -p); in-process runs go through evo's own launch().",
-    "C03": " A third call site: main_ape.ape / main_rpe.rpe with alignment requested on generic, near-identical, identical and coincident pairs (the wrapped umeyama_alignment must be reached exactly once with the two position sets). evo_traj / evo_ape / evo_rpe runs with --n_to_align and scale-only correction; unequal-size inputs with an explicit n. Rounds 12-16: Umeyama under np.errstate(raise) / RuntimeWarnings as errors; exactly symmetric point sets; projected trajectories aligned afterwards (flip-optimal pairs), the value returned by align() judged on the 3-D positions; concurrent alignments in 4 threads. Rounds 17-19: umeyama_alignment called with its arguments by position or by keyword.",
+    "C09": " Argument arrays in C / Fortran order, transposed views, strided windows and read-only buffers; arrays returned earlier are poisoned before the next call. Rounds 12-16: concurrent use of the helpers from 4 threads; constructor arguments as longdouble / lists / tuples; vectors with components 25 orders of magnitude apart. Rounds 17-19: logarithms near pi about generic axes; cross-product identity judged relative to |v||w|. Round 21: blocks of determinant exactly 0 in the membership tests.",
+    "C05": " Numpy-scalar spellings of max_diff / offset; display names with '%' and braces; self-association of one object; CLI runs with cropping plus offset. Rounds 12-16: objects built by evo's own readers (paths, handles, StringIO) and by the pandas bridge; metadata with reference cycles; concurrent associations in 4 threads. Rounds 17-19: merge together with synchronisation through evo_traj; bounds exactly on a pair's time difference. Round 21: boundary bounds on small stamps in every second command-line case.",
+    "C01": " API sessions: one reference object associated and evaluated several times with different options (each evaluation judged against the generating arrays); CLI runs include plots with colour-map limits, zero-valued numeric options and near-identical estimates. Direct API evaluations on every container flavour (lists, integer containers, stacked / shared arrays, subclass instances); input files without a final line break and with '%' / brackets in their names; options moved into a -c configuration file. Rounds 12-16: crop bounds on reference stamps; sparse-reference / dense-estimate pairs; chained unit conversions; a reference object re-used for a second evaluation in another plane; TUM files stamped in integer nanoseconds; bounds a hair above / below a pair's time difference; concurrent APE evaluations in 4 threads compared with their serial outcomes. Rounds 17-19: motion-filter angle thresholds beyond a half turn; header comments in the inputs; sub-degree tilts before projection. Round 20: one-letter flags grouped into one token (-ap, -as, -va, ...); in-process runs go through evo's own launch(). Round 21: input file suffixes independent of the format; files of 2..5 decimals without a final line break; bursts of estimate stamps competing for one reference stamp; still / straight starts.",
+    "C02": " Sizes beyond 1024 poses in the quick tier; the arguments reaching the pair selection are compared with the command line (incl. --delta_tol 0); only forward pairs are accepted. Exact-grid metre deltas; explicit all-pairs and unit selections forced through the command line. Rounds 12-16: refusals judged (a delta is refused only when the rule selects no pair); deltas between the raw and the scale-corrected path length; pair-end stamps reported by rpe() (kind pair_ends); concurrent RPE evaluations in 4 threads. Rounds 17-19: frame deltas above the number of poses; motion-filter angle thresholds beyond 180 degrees. Round 20: one-letter flags grouped into one token (-ap must stay -a -p); in-process runs go through evo's own launch(). Round 21: conversions to the angle unit the values already have; burst stamps; small-scale estimates.",
+    "C03": " A third call site: main_ape.ape / main_rpe.rpe with alignment requested on generic, near-identical, identical and coincident pairs (the wrapped umeyama_alignment must be reached exactly once with the two position sets). evo_traj / evo_ape / evo_rpe runs with --n_to_align and scale-only correction; unequal-size inputs with an explicit n. Rounds 12-16: Umeyama under np.errstate(raise) / RuntimeWarnings as errors; exactly symmetric point sets; projected trajectories aligned afterwards (flip-optimal pairs), the value returned by align() judged on the 3-D positions; concurrent alignments in 4 threads. Rounds 17-19: umeyama_alignment called with its arguments by position or by keyword. Round 21: still / straight starts with --n_to_align 3..5 through evo_ape / evo_rpe.",
     "C04": " Whole-number data in integer containers and quaternions of file precision. Numpy-scalar spellings of n; evo_ape / evo_rpe / evo_traj runs for every alignment option combination. Rounds 12-16: alignment after a refused degenerate transformation; pairs with a common start point / common first attitude. Rounds 17-19: histories containing a refused transformation.",
     "C06": " Whole-number / zero-based stamps; paths that held other content earlier in the process. Several topics per bag; redundant constructor arguments (poses together with positions and orientations). Rounds 12-16: handles positioned after leading content; bag -> evo_traj --save_as_bag -> bag (kind bag_cli); file -> evo_traj -> file with informational options and negative zeros (kind text_cli); BOM-prefixed files; results loaded through load_results_as_dataframe incl. NaN statistics. Rounds 17-19: --sync in the bag command-line kind (frame id kept); KITTI translation columns against the given positions; decomposed (NFD) unicode in result annotations.",
-    "C07": " Transformation files with scales 1e-6..1e6 and hand-written whole-number matrices. UTF-8 BOM and pathlib spellings; shears 1e-3..1 from either side; bottom rows that cancel; six whitespace layouts; write targets that are streams, new files, longer existing files or confirmed overwrites; archives. Rounds 12-16: evo_traj / evo_ape per file format through the command line (kind cli), KITTI files of different lengths, rows sharing a stamp, comment lines resembling encoding cookies, rotation-only transformation files, nanosecond stamps. Rounds 17-19: zero-translation and rounded-quaternion JSON transformations; malformed rows whose column counts cancel. Round 20: files whose every quaternion row carries only 4..8 decimals.",
+    "C07": " Transformation files with scales 1e-6..1e6 and hand-written whole-number matrices. UTF-8 BOM and pathlib spellings; shears 1e-3..1 from either side; bottom rows that cancel; six whitespace layouts; write targets that are streams, new files, longer existing files or confirmed overwrites; archives. Rounds 12-16: evo_traj / evo_ape per file format through the command line (kind cli), KITTI files of different lengths, rows sharing a stamp, comment lines resembling encoding cookies, rotation-only transformation files, nanosecond stamps. Rounds 17-19: zero-translation and rounded-quaternion JSON transformations; malformed rows whose column counts cancel. Round 20: files whose every quaternion row carries only 4..8 decimals. Round 21: input files named @odom.txt / +run.txt / %job.txt / run=a,v2.txt, '@' files given by their bare name.",
     "C08": " The align operation is also judged by the Umeyama oracle at that call site; whole-number coordinates in integer containers; subclass instances. Identical consecutive poses (also sharing one array object); identically built twin objects compared bitwise after align / origin references; non-monotonic and repeated index lists. Rounds 12-16: negative scale factors; refused degenerate transformations; from-the-end indices; right-multiplied and propagated similarities (F15); the propagation flag on left transformations. Rounds 17-19: the propagation flag on translation-only transformations. Round 20: arrays in read-only memory.",
-    "C10": " Re-used pose lists and re-used RPE objects after in-place edits; evo_rpe runs whose recorded pairs are judged against the command line's delta / tolerance (incl. 0); sizes beyond 1024 poses in the quick tier. Nano-radian rotations; boolean flags spelled as bool, numpy.bool_ or int; relative tolerances up to 2.5; increments queried in the other unit beforehand; unit switches between evaluations. Rounds 12-16: concurrent pair selection in 4 threads; 10^4-pose logs in map coordinates; sequences of near-half-turn steps. Rounds 17-19: abbreviated option spellings (kind abbrev); frame deltas above n; a stdout stand-in that reports a terminal (every fourth run).",
+    "C10": " Re-used pose lists and re-used RPE objects after in-place edits; evo_rpe runs whose recorded pairs are judged against the command line's delta / tolerance (incl. 0); sizes beyond 1024 poses in the quick tier. Nano-radian rotations; boolean flags spelled as bool, numpy.bool_ or int; relative tolerances up to 2.5; increments queried in the other unit beforehand; unit switches between evaluations. Rounds 12-16: concurrent pair selection in 4 threads; 10^4-pose logs in map coordinates; sequences of near-half-turn steps. Rounds 17-19: abbreviated option spellings (kind abbrev); frame deltas above n; a stdout stand-in that reports a terminal (every fourth run). Round 21: frame deltas spelled int / float / numpy scalar; metre deltas between the raw and the scale-corrected path of a small-scale estimate.",
     "C11": " evo_ape runs with forced time cropping (together with time offsets) judged by the reference pipeline; integer timestamp arrays in merges. Column-vector stamps in splits; numpy-scalar N; evo_traj runs with filters and merge layouts; options placed before the sub-command. Rounds 12-16: high-rate sample grids (sub-nanosecond steps); partial pre-reads; negative stamps; crops of trajectories with shared stamps (kind crop_dup); Python int thresholds; in-place edits of the timestamp array between operations. Rounds 17-19: an only outlier at step 0 in splits.",
     "C12": " Sessions: main_rpe.rpe(support_loop=True) and main_ape.ape evaluated repeatedly on the same (already used) objects, every earlier result re-inspected at the end, distance arrays judged against the stored trajectories. Delta units and all-pairs modes in sessions; out-of-order first stamp; result objects judged for array shapes, statistics, timestamps, seconds-from-start and distances. Rounds 12-16: failed processing comparisons of the borrowed executors are reported; sessions on 1100-1600 poses in map coordinates. Rounds 17-19: mixed metric classes in one session with an archive round trip; zero-length relative motions. Round 20: stored values that are the definition's values in another order (value k must belong to pose k).",
-    "C13": " Identical paths listed twice; statistics that are exactly 0.0 in every result. Names with brackets; transposed tables; results lacking one statistic; keys colliding with array names. Rounds 12-16: in-memory results with tuples / number keys / numpy scalars in their info; the real evo_res executable with options before / after / between the files and the table piped to /dev/stdout (kind exe_layout); real evo_rpe archives (all-pairs) as inputs. Rounds 17-19: several evo_res runs in one process (kind same_process); result files named like ROS remappings (run:=2.zip, __name:=res.zip). Round 20: mixed array lengths are read per merge (every array concatenated).",
+    "C13": " Identical paths listed twice; statistics that are exactly 0.0 in every result. Names with brackets; transposed tables; results lacking one statistic; keys colliding with array names. Rounds 12-16: in-memory results with tuples / number keys / numpy scalars in their info; the real evo_res executable with options before / after / between the files and the table piped to /dev/stdout (kind exe_layout); real evo_rpe archives (all-pairs) as inputs. Rounds 17-19: several evo_res runs in one process (kind same_process); result files named like ROS remappings (run:=2.zip, __name:=res.zip). Round 20: mixed array lengths are read per merge (every array concatenated). Round 21: results holding one array object under two keys.",
     "C14": " Objects derived from one source (deep copies, synchronised copies, split parts) projected onto different planes; evo_traj runs with --project_to_plane combined with the other processing options. Principal-axis attitudes and null quaternions; projection reached through main_ape.ape / main_rpe.rpe. Rounds 12-16: objects sharing one metadata dictionary. Rounds 17-19: attitudes whose out-of-plane axis is already aligned (R[n,n] == 1) with non-zero out-of-plane coordinates.",
-    "C15": " Output-only options (plots, relative time, tables, log files), zero-valued options, whole-number transformation files. Text layouts of transformation files; EuRoC layouts; dotted file names; inputs relocated per run (relative --ref); windowed dense trajectories with sparse references; out-of-order lines; stale exports of an earlier run; options moved into a -c configuration file. Rounds 12-16: the reference also listed among the inputs (five spellings); KITTI inputs of different lengths; rotation-only transformation files; Sim(3) files for right / propagated multiplication; mirrored consecutive quaternions; an input differing from the reference only in letter case. Rounds 17-19: transformation files with an exactly-identity rotation block for left and right multiplication; the real executable with stdout closed; motion-filter angles beyond 180 degrees.",
-    "C16": " Colour-map limits inside the value range; results with nested user annotations (NaN/Inf/None); merge partners in the same storage state. Stacked arrays handed to the filters; result_to_df labels; non-monotonic data-frame indices. Rounds 12-16: every transformation variant with a Sim(3) matrix; Result.add_info / add_stats; objects from the pandas bridge (column-major arrays) and big-endian arrays; save_df_as_table in both orientations. Rounds 17-19: one-pose split sources; identity poses with change_unit; all-pairs point-distance relations on slice views. Round 20: NaN / inf position rows in the trajectories handed to the metrics.",
+    "C15": " Output-only options (plots, relative time, tables, log files), zero-valued options, whole-number transformation files. Text layouts of transformation files; EuRoC layouts; dotted file names; inputs relocated per run (relative --ref); windowed dense trajectories with sparse references; out-of-order lines; stale exports of an earlier run; options moved into a -c configuration file. Rounds 12-16: the reference also listed among the inputs (five spellings); KITTI inputs of different lengths; rotation-only transformation files; Sim(3) files for right / propagated multiplication; mirrored consecutive quaternions; an input differing from the reference only in letter case. Rounds 17-19: transformation files with an exactly-identity rotation block for left and right multiplication; the real executable with stdout closed; motion-filter angles beyond 180 degrees. Round 21: the real executable with a standard output nobody reads; odd leading characters in file names.",
+    "C16": " Colour-map limits inside the value range; results with nested user annotations (NaN/Inf/None); merge partners in the same storage state. Stacked arrays handed to the filters; result_to_df labels; non-monotonic data-frame indices. Rounds 12-16: every transformation variant with a Sim(3) matrix; Result.add_info / add_stats; objects from the pandas bridge (column-major arrays) and big-endian arrays; save_df_as_table in both orientations. Rounds 17-19: one-pose split sources; identity poses with change_unit; all-pairs point-distance relations on slice views. Round 20: NaN / inf position rows in the trajectories handed to the metrics. Round 21: the container handed to plot.trajectories (dict / list / tuple, also with an empty trajectory) is an argument too.",
     "C17": " Existing targets as files with content, empty files or symbolic links; targets re-spelled (./x, absolute, sub/../x, ~/x) with the home directory watched like the working directory; every cell followed by a second save in the same process. Targets given through environment variables or without extension; one path named for two outputs; end-of-file as the answer to a prompt. Rounds 12-16: Ctrl+C and unreadable answers at the prompt; --plot together with saving, upper-case extensions; names ending in a blank; read-only targets when run as root. Rounds 17-19: refused inputs (kind refused_input: nothing may be written); the real executables with answers typed at a pseudo-terminal (yes / 'y ' / Y / empty). Round 20: in-process runs go through evo's own launch(); several existing targets in one command, each question answered by the file it is about (kind mixed).",
-    "C19": " Crash points at every file-system primitive called from library helpers; settings.json / ~/.evo as symbolic links; the settings file named by relative spellings from other directories. Outdated settings files upgraded while being written; writers held between temporary file and rename; time-zone and locale variants. Rounds 12-16: homes stamped by twelve other releases, obsolete keys; every upgrade scenario also run to completion (kind nocrash). Rounds 17-19: races with millisecond jitter after a crash; backend changes racing an upgrade (scenario set_backend); soft merges that must keep keys of the first dictionary. Round 20: desktop-session environments (DISPLAY set) for every second child.",
+    "C19": " Crash points at every file-system primitive called from library helpers; settings.json / ~/.evo as symbolic links; the settings file named by relative spellings from other directories. Outdated settings files upgraded while being written; writers held between temporary file and rename; time-zone and locale variants. Rounds 12-16: homes stamped by twelve other releases, obsolete keys; every upgrade scenario also run to completion (kind nocrash). Rounds 17-19: races with millisecond jitter after a crash; backend changes racing an upgrade (scenario set_backend); soft merges that must keep keys of the first dictionary. Round 20: desktop-session environments (DISPLAY set) for every second child. Round 21: the start after an upgrade running in tab-completion mode (_ARGCOMPLETE).",
     "C20": " A decoy current figure; plot.trajectories with several panels on one figure. Optional arguments passed positionally; corpora of 2..6 poses; gimbal-lock attitudes judged by recomposition. Rounds 12-16: long-way geometries for the speed plot; negative stamps; tick labels in the axis' own unit incl. a figure prepared earlier for another unit; attitudes next to gimbal lock with an angle-level oracle. Rounds 17-19: non-unit quaternions; evo_traj speed / attitude plots against relative time through the command line (kind cli_time); almost constant attitudes (micro-radian wobble).",
 }
 
